@@ -209,6 +209,7 @@ func genCtxFields(r *Repo) (string, error) {
 	if len(fields) == 0 {
 		return "", fmt.Errorf("struct cTx not found")
 	}
+	allCtxFields := fields
 	fmt.Fprintf(&sb, "def ctxFields : List String := %s\n", leanStrList(fields))
 
 	// ---- reset variants
@@ -316,12 +317,16 @@ func genCtxFields(r *Repo) (string, error) {
 		return "", fmt.Errorf("cTx.Clone not found")
 	}
 	clSet := ctxFieldSet{}
+	freshLiteral := false
 	var litInit [][2]string
 	var writerReads, bufForms []string
 	ast.Inspect(cl.Body, func(n ast.Node) bool {
 		switch x := n.(type) {
 		case *ast.CompositeLit:
 			if r.Text(x.Type) == "cTx" {
+				// a fresh value: every field not named in the literal is its zero value, i.e. assigned too (an explicit
+				// `cp.f = nil` afterwards is redundant and may or may not be written)
+				freshLiteral = true
 				for _, el := range x.Elts {
 					if kv, ok := el.(*ast.KeyValueExpr); ok {
 						clSet[r.Text(kv.Key)] = true
@@ -356,6 +361,12 @@ func genCtxFields(r *Repo) (string, error) {
 	})
 	sort.Slice(litInit, func(i, j int) bool { return litInit[i][0] < litInit[j][0] })
 	sort.Strings(writerReads)
+	sort.Strings(bufForms) // the order of the two buffers (the arms of an if/else) is irrelevant
+	if freshLiteral {
+		for _, f := range allCtxFields {
+			clSet[f] = true
+		}
+	}
 	fmt.Fprintf(&sb, "def assigned_Clone : List String := %s\n", leanStrList(clSet.list()))
 	fmt.Fprintf(&sb, "def cloneLiteral : List (String × String) := %s\n", ctxLeanPairs(litInit))
 	fmt.Fprintf(&sb, "/-- the calls through which Clone reads the response state (must go through the current writer c.w) -/\ndef cloneWriterReads : List String := %s\n", leanStrList(writerReads))
